@@ -587,3 +587,438 @@ def run(R: vlib.Run):
 
 def rec_of_rec(r):
     return (int(r["count"]), float(r["m1"]), float(r["m2"]), float(r["m3"]), float(r["m4"]), float(r["min"]), float(r["max"]))
+
+
+# ---------------------------------------------------------------------------------------------------
+# at-scale search (check.py calls scale(R) in the thorough tier, with VERIF_SCALE=1, and whenever something no longer checks
+# and run(R) found no small failing input)
+# ---------------------------------------------------------------------------------------------------
+# Tolerance at scale.  compute_online_moments(_basic) loads the float32 record into float64 locals, updates them once per
+# sample in float64 and rounds the record to float32 once per push_data; add_online_moments evaluates its formulas in
+# float64 and rounds once.  The bound of the docstring is therefore taken with K = pushes + additions roundings of the
+# record instead of one per sample (N^2 -> n*K, N -> K; with one-sample chunks K = n and it is the small-scope bound
+# again), plus n float64 updates counted as n * 2^-29 float32 roundings.  Counts, minima and maxima stay exact.
+
+S_U8 = ("steps", "1bit-step", "2bit", "constant", "8bit", "spikes")
+S_F32 = ("steps", "wide", "offset", "constant", "smallint-drift", "negative")
+S_KINDS = {"u8-steps": 0, "f32-steps": 1, "u8-mixed": 2, "f32-mixed": 3}
+
+
+def scale_stream(seed, kind, n, nch):
+    """the stream of an at-scale case, shape (n, nch) in C order; deterministic in (seed, kind, n, nch) -- replays call this.
+    'u8-steps' / 'f32-steps': every channel is noise on three plateaus (steps at n//3 and 3n//4), so that the two parts of any
+    split differ in mean and every term of the merge matters; uint8 values cover 0..255.  'u8-mixed' / 'f32-mixed': channel c
+    is of class S_U8[c % 6] / S_F32[c % 6] (the data classes of the small-scope oracle: |x| <= 1e4, spread >= 1e-3 or constant)."""
+    n, nch = int(n), int(nch)
+    g = np.random.default_rng([int(seed), 1010, S_KINDS[kind], n, nch])
+    a, b, h = n // 3, (3 * n) // 4, n // 2
+
+    def u8_steps(m):
+        Y = g.integers(0, 157, (n, m), dtype=np.uint8)
+        Y[a:] += np.uint8(40)
+        Y[b:] += np.uint8(59)
+        return Y
+
+    def f32_steps(m):
+        Y = g.standard_normal((n, m), dtype=np.float32)
+        Y *= np.float32(2.0)
+        Y += np.float32(10.0)
+        Y[a:] += np.float32(5.0)
+        Y[b:] -= np.float32(12.5)
+        return Y
+
+    if kind == "u8-steps":
+        return u8_steps(nch)
+    if kind == "f32-steps":
+        return f32_steps(nch)
+    if kind == "u8-mixed":
+        X = np.zeros((n, nch), dtype=np.uint8)
+        for ci, cls in enumerate(S_U8):
+            m = len(range(ci, nch, 6))
+            if m == 0:
+                continue
+            if cls == "steps":
+                Y = u8_steps(m)
+            elif cls == "1bit-step":           # p = 1/4 in the first half, 3/4 in the second
+                r = g.integers(0, 4, (n, m), dtype=np.uint8)
+                Y = np.empty((n, m), dtype=np.uint8)
+                Y[:h] = r[:h] == 0
+                Y[h:] = r[h:] != 0
+            elif cls == "2bit":
+                Y = g.integers(0, 4, (n, m), dtype=np.uint8)
+            elif cls == "constant":
+                Y = np.broadcast_to(np.array([0, 1, 7, 255], dtype=np.uint8)[np.arange(m) % 4], (n, m))
+            elif cls == "8bit":
+                Y = g.integers(1, 256, (n, m), dtype=np.uint16).astype(np.uint8)
+            else:                              # rare full-scale spikes on a zero baseline (large kurtosis)
+                Y = (g.integers(0, 1000, (n, m), dtype=np.uint16) == 0).astype(np.uint8) * np.uint8(255)
+            X[:, ci::6] = Y
+        return X
+    if kind == "f32-mixed":
+        X = np.zeros((n, nch), dtype=np.float32)
+        for ci, cls in enumerate(S_F32):
+            m = len(range(ci, nch, 6))
+            if m == 0:
+                continue
+            if cls == "steps":
+                Y = f32_steps(m)
+            elif cls == "wide":
+                Y = ((g.random((n, m)) * 2 - 1) * 10.0 ** g.integers(-2, 5, (n, m))).astype(np.float32)
+            elif cls == "offset":
+                Y = (np.array([100.0, 1000.0, -500.0])[np.arange(m) % 3] + g.integers(0, 8, (n, m)) * 0.25).astype(np.float32)
+            elif cls == "constant":
+                Y = np.broadcast_to(np.array([0, 1, 5, 200, -3], dtype=np.float32)[np.arange(m) % 5], (n, m))
+            elif cls == "smallint-drift":
+                Y = g.integers(-9, 10, (n, m)).astype(np.float32)
+                Y[h:] += np.float32(6.0)
+            else:
+                Y = (-g.integers(1, 60, (n, m)) - 0.5 * g.integers(0, 2, (n, m))).astype(np.float32)
+            X[:, ci::6] = Y
+        return X
+    raise ValueError(kind)
+
+
+def scale_eval(desc, X, mode, ChannelStats, tick=None):
+    """evaluate an at-scale history with the implementation; returns (ChannelStats, pushes, additions).  desc is one of
+    ("chunks", gulp, conv, flag_off)         one accumulator fed consecutive chunks of `gulp` samples; start index = flag_off + sample
+                                             index (conv "sample") or + block number (conv "block", as Filterbank.compute_stats does)
+    ("split", k, gulp, conv, first0, swap)   samples [0,k) and [k,n) to two accumulators (each chunked), the second started at
+                                             index 0 (first0) or at its true index; then a + b (swap: b + a)
+    ("blocks", gulp, "fold" | "tree")        every block of `gulp` samples to its own accumulator; left fold / balanced tree of additions
+    ("sum-push", k, j, gulp)                 (acc[0,k) + acc[k,j)), then the rest of the stream pushed onto the sum"""
+    n, nch = X.shape
+    ops = [0, 0]
+
+    def acc(i0, i1, gulp, conv, first_flag=None, flag_off=0, base=None):
+        if base is None:
+            s = ChannelStats(nch, i1 - i0)
+        else:
+            s = ChannelStats(nch, base.nsamps + i1 - i0)
+            s.moments[:] = base.moments          # continue pushing onto the sum (same record, larger nsamps), as run_impl does
+        bi = 0
+        for pos in range(i0, i1, gulp):
+            flag = (pos if conv == "sample" else bi) + flag_off
+            if bi == 0 and first_flag is not None:
+                flag = first_flag
+            if tick is not None and bi % 1024 == 0:
+                tick()
+            s.push_data(X[pos:min(pos + gulp, i1)].ravel(), flag, mode=mode)
+            bi += 1
+        ops[0] += bi
+        return s
+
+    kind = desc[0]
+    if kind == "chunks":
+        _, gulp, conv, flag_off = desc
+        s = acc(0, n, gulp, conv, flag_off=flag_off)
+    elif kind == "split":
+        _, k, gulp, conv, first0, swap = desc
+        a = acc(0, k, gulp, conv)
+        b = acc(k, n, gulp, conv, first_flag=0 if first0 else None)
+        s = (b + a) if swap else (a + b)
+        ops[1] += 1
+    elif kind == "blocks":
+        _, gulp, shape = desc
+        accs = [acc(pos, min(pos + gulp, n), gulp, "sample", first_flag=0 if (pos // gulp) % 2 else None) for pos in range(0, n, gulp)]
+        ops[1] += len(accs) - 1
+        if shape == "fold":
+            s = accs[0]
+            for i, t in enumerate(accs[1:]):
+                if tick is not None and i % 256 == 0:
+                    tick()
+                s = s + t
+        else:
+            while len(accs) > 1:
+                if tick is not None:
+                    tick()
+                accs = [accs[i] + accs[i + 1] if i + 1 < len(accs) else accs[i] for i in range(0, len(accs), 2)]
+            s = accs[0]
+    elif kind == "sum-push":
+        _, k, j, gulp = desc
+        base = acc(0, k, gulp, "sample") + acc(k, j, gulp, "sample", first_flag=0)
+        ops[1] += 1
+        s = acc(j, n, gulp, "sample", base=base)
+    else:
+        raise ValueError(desc)
+    return s, ops[0], ops[1]
+
+
+def _s_ref(X):
+    """float64 two-pass statistics of every channel (the definitions of two_pass, vectorised): dict of arrays of length nch"""
+    n = X.shape[0]
+    mn, mx = X.min(axis=0).astype(np.float64), X.max(axis=0).astype(np.float64)
+    Xt = np.ascontiguousarray(X.T, dtype=np.float64)        # (nch, n): pairwise summation along the samples
+    mu = Xt.sum(axis=1) / n
+    Xt -= mu[:, None]
+    P = Xt * Xt
+    M2 = P.sum(axis=1)
+    P *= Xt
+    M3 = P.sum(axis=1)
+    P *= Xt
+    M4 = P.sum(axis=1)
+    del P, Xt
+    return {"n": n, "mu": mu, "M2": M2, "M3": M3, "M4": M4, "min": mn, "max": mx, "R": np.maximum(np.abs(mn), np.abs(mx)), "D": mx - mn}
+
+
+def _s_tol(n, K, Rm, D):
+    """error bound for n samples accumulated with K roundings of the record to float32 (vectorised over channels); see above"""
+    Ke = K + n * 2.0 ** -29
+    E1 = Ke * U * Rm
+    E2 = Ke * U * n * D * (D / 4 + Rm / 2)
+    E3 = Ke * U * n * D ** 2 * (D + 1.5 * Rm)
+    E4 = Ke * U * n * D ** 3 * (2.75 * D + 5 * Rm)
+    tiny = 1e-30
+    return 4 * E1 + tiny, 4 * E2 + tiny, 4 * E3 + tiny, 4 * E4 + tiny
+
+
+def _s_box(n, M2, M3, M4, t2, t3, t4):
+    """`stat_box` vectorised: reference var / skew / kurtosis, their tolerances, and the mask of ill-conditioned channels"""
+    var = M2 / n
+    tv = t2 / n + 4 * U * np.abs(var)
+    ill = (M2 <= 0) | (t2 >= M2 / 2)
+    m2s = np.where(ill, 1.0, M2)
+    t2s = np.where(ill, 0.0, t2)
+    rn = math.sqrt(n)
+    skew = rn * M3 / m2s ** 1.5
+    kurt = n * M4 / m2s ** 2 - 3.0
+    ds = np.zeros_like(var)
+    dk = np.zeros_like(var)
+    for s2 in (-1, 1):
+        m2 = m2s + s2 * t2s
+        for s3 in (-1, 1):
+            ds = np.maximum(ds, np.abs(rn * (M3 + s3 * t3) / m2 ** 1.5 - skew))
+            dk = np.maximum(dk, np.abs(n * (M4 + s3 * t4) / m2 ** 2 - 3.0 - kurt))
+    return var, tv, skew, ds + 16 * U * np.abs(skew) + 1e-30, kurt, dk + 16 * U * (np.abs(kurt) + 3) + 1e-30, ill
+
+
+def _s_compare(R, s, n, full, ref, tols, case, kind, mode, ratios):
+    """the oracle at scale: count / minima / maxima exact, constants exact, finiteness, mean / var / skew / kurtosis within the bound.
+    ref: dict of per-channel float64 arrays (mu, M2, M3, M4, min, max, D); tols: (t1, t2, t3, t4).  Reports the first bad channel."""
+    def ch_of(mask):
+        return int(np.argmax(mask))
+
+    cnt = np.asarray(s.moments["count"])
+    if not np.all(cnt == n):
+        c = ch_of(cnt != n)
+        R.fail("scale-count", "count differs from the number of samples pushed (at scale)", dict(case, channel=c, got=int(cnt[c]), expected=int(n)))
+    mn, mx = np.asarray(s.minima, dtype=np.float64), np.asarray(s.maxima, dtype=np.float64)
+    badmm = (mn != ref["min"]) | (mx != ref["max"])
+    if badmm.any():
+        c = ch_of(badmm)
+        R.fail("scale-minmax", "minima/maxima differ from the minimum/maximum of the samples pushed (at scale)",
+               dict(case, channel=c, got=[float(mn[c]), float(mx[c])], expected=[float(ref["min"][c]), float(ref["max"][c])], channels_bad=int(badmm.sum())))
+    mean, var = np.asarray(s.mean, dtype=np.float64), np.asarray(s.var, dtype=np.float64)
+    skew, kurt = np.asarray(s.skew, dtype=np.float64), np.asarray(s.kurtosis, dtype=np.float64)
+    for name, arr in (("mean", mean), ("var", var), ("skew", skew), ("kurtosis", kurt)):
+        nf = ~np.isfinite(arr)
+        if nf.any():
+            c = ch_of(nf)
+            R.fail("scale-nonfinite", f"{name} is NaN or infinite for finite input (at scale)", dict(case, channel=c, stat=name, got=float(arr[c])))
+            return
+    t1, t2, t3, t4 = tols
+    rvar, tv, rskew, ts, rkurt, tk, ill = _s_box(n, ref["M2"], ref["M3"], ref["M4"], t2, t3, t4)
+    const = ref["D"] == 0.0
+    badc = const & ((var != 0.0) | (skew != 0.0))
+    if badc.any():
+        c = ch_of(badc)
+        R.fail("scale-constant", "constant channel reports non-zero variance or skewness (at scale)",
+               dict(case, channel=c, var=float(var[c]), skew=float(skew[c])))
+    checks = [("mean", np.abs(mean - ref["mu"]), t1, np.ones_like(const)), ("var", np.abs(var - rvar), tv, ~const)]
+    if full:
+        checks += [("skew", np.abs(skew - rskew), ts, ~const & ~ill), ("kurtosis", np.abs(kurt - rkurt), tk, ~const & ~ill)]
+        ratios["ill-conditioned"] = ratios.get("ill-conditioned", 0) + int((~const & ill).sum())
+    ratios["compared"] = ratios.get("compared", 0) + int(const.size)
+    bad = np.zeros_like(const)
+    for name, err, tol, mask in checks:
+        if mask.any():
+            ratios[name] = max(ratios.get(name, 0.0), float((err[mask] / tol[mask]).max()))
+        bad |= mask & (err > tol)
+    if bad.any():
+        c = ch_of(bad)
+        got = {"mean": mean, "var": var, "skew": skew, "kurtosis": kurt}
+        exp = {"mean": ref["mu"], "var": rvar, "skew": rskew, "kurtosis": rkurt}
+        diffs = [{"stat": name, "got": float(got[name][c]), "expected": float(exp[name][c]), "tolerance": float(tol[c])}
+                 for name, err, tol, mask in checks if mask[c] and err[c] > tol[c]]
+        R.fail(f"scale-moments-{kind}-{mode}",
+               "statistics differ from the float64 two-pass definitions by more than the float32 accumulation bound (at scale)",
+               dict(case, channel=c, channels_bad=int(bad.sum()), diffs=diffs))
+
+
+def scale_bernoulli(n, k, v0, sc):
+    """exact record (count, m1..m4, min, max) of n samples of which k have the value v0 + sc and n - k the value v0"""
+    if n == 0:
+        return (0, Fraction(0), Fraction(0), Fraction(0), Fraction(0), 0.0, 0.0)
+    v0, sc = Fraction(v0), Fraction(sc)
+    vals = ([v0] if k < n else []) + ([v0 + sc] if k > 0 else [])
+    return (n, v0 + sc * Fraction(k, n), sc ** 2 * Fraction(k * (n - k), n), sc ** 3 * Fraction(k * (n - k) * (n - 2 * k), n * n),
+            sc ** 4 * Fraction(k * (n - k) * (n * n - 3 * n * k + 3 * k * k), n ** 3), float(min(vals)), float(max(vals)))
+
+
+S_PAIRS = [(46341, 46341), (55109, 55109), (65535, 65537), (1000, 1 << 18), ((1 << 18) + 1, 1 << 18), (1 << 20, 1 << 20),
+           (1 << 21, (1 << 21) + 7), (1 << 22, 3), ((1 << 24) - 1, (1 << 24) + 1), (1 << 26, 1 << 25), (40000000, 30000000),
+           (1 << 30, (1 << 30) - 1), ((1 << 31) - 2, 1), (1, (1 << 31) - 2), (1290, (1 << 31) - 1291), (3 << 29, (1 << 29) - 1),
+           (0, 1 << 30), ((1 << 30) + 5, 0)]
+S_FRACS = [((1, 4), (3, 4)), ((1, 2), (1, 8)), ((0, 1), (1, 1)), ((1, 3), (1, 3)), ((7, 8), (1, 16))]
+S_LEVELS = [(0.0, 1.0), (-3.0, 2.5), (100.0, 0.25), (0.0, 255.0), (5.0, -1.5)]
+
+
+def scale_records(na, nb):
+    """hand-built operands for a merge with counts (na, nb): channel i holds two-valued data (scale_bernoulli) with the fractions
+    S_FRACS[i // 5] of high samples in the two operands and (base, step) = S_LEVELS[i % 5]; returns (a, b, union) as lists of exact records"""
+    A, B, C = [], [], []
+    for (pa, pb) in S_FRACS:
+        ka, kb = na * pa[0] // pa[1], nb * pb[0] // pb[1]
+        for v0, sc in S_LEVELS:
+            A.append(scale_bernoulli(na, ka, v0, sc))
+            B.append(scale_bernoulli(nb, kb, v0, sc))
+            C.append(scale_bernoulli(na + nb, ka + kb, v0, sc))
+    return A, B, C
+
+
+def _s_fill(moments, recs):
+    for f, j in (("count", 0), ("m1", 1), ("m2", 2), ("m3", 3), ("m4", 4), ("min", 5), ("max", 6)):
+        moments[f] = [float(r[j]) if j else r[j] for r in recs]
+
+
+def scale(R: vlib.Run):
+    """at-scale search: pushes of 2^16 .. 2^24 elements, streams of up to 2^24 + 70001 samples per channel chunked at 16384 / a
+    non-dividing gulp / above 65536, 70000-push and 2000-addition histories, 4096 .. 2^18+1 channels, merges of operands with up
+    to 2^31 - 1 samples.  Data are regenerated from (seed, kind, n, nch) by scale_stream; histories are replayed by scale_eval."""
+    from sigpyproc.core import kernels
+    from sigpyproc.core.stats import ChannelStats
+
+    seed = R.seed + 1010
+    ratios = {}
+
+    def do_stream(kind, n, nch, plan):
+        """plan: list of (desc, modes)"""
+        sdesc = {"kind": kind, "n": int(n), "nchans": int(nch), "seed": seed,
+                 "generator": "props/c10.py scale_stream(seed, kind, n, nchans)"}
+        X = scale_stream(seed, kind, n, nch)
+        ref = _s_ref(X)
+        try:
+            for desc, modes in plan:
+                for mode in modes:
+                    case = {"stream": sdesc, "mode": mode, "history": list(desc),
+                            "replay": "props/c10.py scale_eval(history, X, mode, ChannelStats); oracle: two-pass float64 per channel"}
+                    R.tick(case)
+                    R.case(("scale", kind, n, nch, mode) + tuple(desc), regime="scale")
+                    try:
+                        s, npush, nadds = scale_eval(desc, X, mode, ChannelStats, tick=lambda: R.tick(case))
+                    except Exception as e:  # noqa: BLE001
+                        R.fail("scale-exception", f"ChannelStats raised at scale: {type(e).__name__}: {str(e)[:120]}", case)
+                        continue
+                    case = dict(case, pushes=npush, additions=nadds)
+                    tols = _s_tol(n, npush + nadds, ref["R"], ref["D"])
+                    _s_compare(R, s, n, mode != "basic", ref, tols, case, "merge" if nadds else "chunking", mode, ratios)
+                    del s
+        finally:
+            del X, ref
+
+    both = ("basic", "full")
+    # ---- (1) element count of one push around 2^16 .. 2^24, 1 and 16 channels; and the same stream split in two halves -------
+    for k in (16, 18, 20, 22, 24):
+        for nch in (1, 16):
+            for off in (-1, 0, 1):
+                n = (1 << k) // nch + off
+                kinds = ["u8-steps"] + (["f32-steps"] if (k <= 22 or (nch == 16 and off == 1)) else [])
+                for kind in kinds:
+                    do_stream(kind, n, nch, [(("chunks", n, "sample", 0), both), (("split", n // 2, n, "sample", False, False), both)])
+    # ---- (2) long streams: gulp 16384 / non-dividing / above 65536, both index conventions, splits, blocks, push onto a sum ----
+    for kind, n, nch, heavy in (("u8-mixed", 300000, 6, False), ("f32-mixed", 200000, 6, False), ("u8-mixed", 70000, 64, False),
+                                ("f32-steps", (1 << 22) + 12345, 2, True), ("u8-steps", (1 << 24) + 70001, 1, True)):
+        plan = [(("chunks", 16384, "sample", 0), both), (("chunks", 10007, "block", 0), both), (("chunks", 70001, "sample", 0), both),
+                (("chunks", 65536, "block", 0), both), (("chunks", 16384, "sample", 1 << 33), both),
+                (("split", n // 2, 16384, "sample", False, False), both), (("split", n // 4, 16384, "block", True, True), both),
+                (("split", 55109, 10007, "sample", True, False), both), (("split", n - 1000, 70001, "sample", False, False), both),
+                (("sum-push", n // 3, (2 * n) // 3, 16384), both), (("blocks", 16384, "fold"), ("full",)), (("blocks", 16384, "tree"), both)]
+        if not heavy:
+            plan += [(("split", 1000, 16384, "sample", False, True), both), (("split", 0, 16384, "sample", True, False), both),
+                     (("split", n, 16384, "sample", False, False), both), (("blocks", 1000, "tree"), ("full",))]
+        do_stream(kind, n, nch, plan)
+    # ---- (3) many channels (4096; 65537: a 16-bit channel index wraps; 2^18 + 1) ----------------------------------------------
+    for kind, n, nch in (("u8-mixed", 600, 4096), ("f32-mixed", 40, 65537), ("u8-mixed", 20, (1 << 18) + 1)):
+        g = max(1, n // 37)
+        do_stream(kind, n, nch, [(("chunks", n, "sample", 0), both), (("chunks", g, "block", 0), both), (("chunks", 7, "sample", 0), both),
+                                 (("split", n // 2, n, "sample", False, False), both), (("split", n // 3, 7, "sample", True, True), both),
+                                 (("blocks", max(7, n // 8), "tree"), ("full",))])
+    # ---- (4) long histories: 70000 pushes (block numbers above 65535), thousands of additions ----------------------------------
+    do_stream("u8-mixed", 210000, 2, [(("chunks", 3, "block", 0), both), (("chunks", 3, "sample", 0), ("full",)),
+                                      (("blocks", 100, "fold"), ("full",)), (("blocks", 100, "tree"), ("basic",))])
+    R.extra_cov["scale_error_over_bound_max"] = {k: (round(v, 4) if isinstance(v, float) else v) for k, v in ratios.items()}
+
+    # ---- (5) merges of hand-built operands with up to 2^31 - 1 samples (two-valued data: the union is known exactly) -----------
+    kratios = {}
+    for na, nb in S_PAIRS:
+        A, B, C = scale_records(na, nb)
+        nchk = len(A)
+        n = na + nb
+        case = {"na": na, "nb": nb, "operands": "props/c10.py scale_records(na, nb): two-valued data, fractions S_FRACS[i // 5], levels S_LEVELS[i % 5]"}
+        R.tick(case)
+        R.case(("scale", "records", na, nb), regime="scale")
+        a, b = ChannelStats(nchk, na), ChannelStats(nchk, nb)
+        _s_fill(a.moments, A)
+        _s_fill(b.moments, B)
+        ref = {"mu": np.array([float(r[1]) for r in C]), "M2": np.array([float(r[2]) for r in C]), "M3": np.array([float(r[3]) for r in C]),
+               "M4": np.array([float(r[4]) for r in C]), "min": np.array([r[5] for r in C]), "max": np.array([r[6] for r in C])}
+        ref["D"] = ref["max"] - ref["min"]
+        Rm = np.array([max(abs(v0), abs(v0 + sc)) for _ in S_FRACS for v0, sc in S_LEVELS])
+        Dm = np.array([abs(sc) for _ in S_FRACS for v0, sc in S_LEVELS])
+        # operands and result are rounded to float32 once; first-order propagation through the merge formulas: <= 6 u n D^(k-1) (D + R)
+        tk = [4 * U * Rm + 1e-30] + [32 * U * n * Dm ** (j - 1) * (Dm + Rm) + 1e-30 for j in (2, 3, 4)]
+        for swap in (False, True):
+            cs = dict(case, order="b + a" if swap else "a + b")
+            try:
+                s = (b + a) if swap else (a + b)
+                c2 = np.zeros(nchk, dtype=kernels.moments_dtype)
+                if swap:
+                    kernels.add_online_moments(b.moments, a.moments, c2)
+                else:
+                    kernels.add_online_moments(a.moments, b.moments, c2)
+            except Exception as e:  # noqa: BLE001
+                R.fail("scale-exception", f"merge raised at scale: {type(e).__name__}: {str(e)[:120]}", cs)
+                continue
+            if s.moments.tobytes() != c2.tobytes():
+                R.fail("scale-merge-records", "ChannelStats.__add__ and add_online_moments differ on the same operands", cs)
+            for j, f in ((1, "m1"), (2, "m2"), (3, "m3"), (4, "m4")):
+                got = np.asarray(s.moments[f], dtype=np.float64)
+                exp = np.array([float(r[j]) for r in C])
+                err = np.abs(got - exp)
+                okf = np.isfinite(got)
+                kratios[f] = max(kratios.get(f, 0.0), float((err[okf] / tk[j - 1][okf]).max()) if okf.any() else 0.0)
+                badf = ~okf | (err > tk[j - 1])
+                if badf.any():
+                    c = int(np.argmax(badf))
+                    R.fail("scale-merge-records", "merged central sums differ from the sums of the union of the two data sets (large counts)",
+                           dict(cs, channel=c, field=f, got=float(got[c]), expected=float(exp[c]), tolerance=float(tk[j - 1][c]),
+                                a=[float(x) for x in A[c]], b=[float(x) for x in B[c]]))
+                    break
+            _s_compare(R, s, n, True, ref, tuple(tk), cs, "merge", "records", kratios)
+    # the same operands side by side in one wide record array (more than 65536 channels in one merge)
+    wide = [(na, nb, i) for na, nb in S_PAIRS for i in range(len(S_FRACS) * len(S_LEVELS))]
+    reps = 70000 // len(wide) + 1
+    rec = {}
+    for na, nb in S_PAIRS:
+        rec[(na, nb)] = scale_records(na, nb)
+    nw = len(wide) * reps
+    case = {"merge": "all scale_records(na, nb) for (na, nb) in S_PAIRS side by side, repeated", "channels": nw}
+    R.tick(case)
+    R.case(("scale", "records-wide", nw), regime="scale")
+    a, b, c = (np.zeros(nw, dtype=kernels.moments_dtype) for _ in range(3))
+    _s_fill(a, [rec[(na, nb)][0][i] for na, nb, i in wide] * reps)
+    _s_fill(b, [rec[(na, nb)][1][i] for na, nb, i in wide] * reps)
+    try:
+        kernels.add_online_moments(a, b, c)
+        one = np.zeros(len(wide), dtype=kernels.moments_dtype)
+        pos = 0
+        for na, nb in S_PAIRS:
+            m = len(rec[(na, nb)][0])
+            kernels.add_online_moments(a[pos:pos + m], b[pos:pos + m], one[pos:pos + m])
+            pos += m
+        if np.tile(one, reps).tobytes() != c.tobytes():
+            diff = [i for i in range(nw) if c[i].tobytes() != one[i % len(wide)].tobytes()]
+            R.fail("scale-merge-wide", "a merge of more than 65536 channels differs from the same merges done a few channels at a time",
+                   dict(case, first_bad_channel=diff[0] if diff else None, channels_bad=len(diff)))
+    except Exception as e:  # noqa: BLE001
+        R.fail("scale-exception", f"add_online_moments raised on a wide record array: {type(e).__name__}: {str(e)[:120]}", case)
+    R.extra_cov["scale_records_error_over_bound_max"] = {k: (round(v, 4) if isinstance(v, float) else v) for k, v in kratios.items()}
